@@ -339,6 +339,62 @@ def r_number_tokens(ctx, rid, floor=3):
                'rule %s is no longer of a decided shape (C+ / C1 ~ C2*)' % need)
 
 
+PROGRAM_TREE_MANUAL_EQ = ('Program', 'Function', 'Assignment', 'Call', 'TypeAlias', 'Expression', 'SingleExpression', 'Match')
+PROGRAM_TREE_DERIVED_EQ = ('FunctionParam', 'MatchArm', 'CallName', 'ExpressionInner', 'Item', 'MatchPattern', 'SingleExpressionInner', 'Statement')
+
+
+def _fields_read(fn):
+    out = set()
+    for b in fn.blocks.values():
+        if b['cleanup']:
+            continue
+        pls = []
+        for st in b['stmts']:
+            pls.append(st['lhs'])
+            rv = st['rv']
+            for key in ('pl',):
+                if isinstance(rv.get(key), dict):
+                    pls.append(rv[key])
+            for key in ('o', 'a', 'b'):
+                o = rv.get(key)
+                if isinstance(o, dict) and isinstance(o.get('pl'), dict):
+                    pls.append(o['pl'])
+            for o in rv.get('ops', []) or []:
+                if isinstance(o, dict) and isinstance(o.get('pl'), dict):
+                    pls.append(o['pl'])
+        t = b['term']
+        for o in t.get('args', []) or []:
+            if isinstance(o, dict) and isinstance(o.get('pl'), dict):
+                pls.append(o['pl'])
+        for pl in pls:
+            for q in pl['p']:
+                if ':' in q:
+                    out.add(q.split(':', 1)[1])
+    return out
+
+
+def r_tree_equality(ctx, rid):
+    """"An equal parse tree": equality of program parse trees is about content.  The nodes that carry a source span compare
+    their content fields only (impl_eq_hash!); a derived PartialEq on such a node would compare positions, and the printed
+    program, laid out differently, would never be equal to the original."""
+    ctx.rule(rid, 'parse-tree equality ignores source positions: the span-carrying nodes of the program tree have the hand-written content equality, no equality of a program-tree node reads a `span` field')
+    fx = ctx.facts()
+    n = 0
+    for t in PROGRAM_TREE_MANUAL_EQ + PROGRAM_TREE_DERIVED_EQ:
+        fn = fx.F.get('<parse::%s as std::cmp::PartialEq>::eq' % t)
+        if fn is None:
+            ctx.ob(rid, 'eq:' + t, False, 'PartialEq::eq of parse::%s is available' % t, None, 'not found')
+            continue
+        n += 1
+        fields = _fields_read(fn)
+        calls = {c.split('::')[-1] for bid, c, t0 in fn.calls()}
+        manual = t in PROGRAM_TREE_MANUAL_EQ
+        ok = 'span' not in fields and 'span' not in calls and (not manual or not fn.macro)
+        ctx.ob(rid, 'eq:' + t, ok, 'parse::%s == compares %s, not positions' % (t, 'its content accessors (hand-written)' if manual else 'its fields %s' % sorted(fields)), fn.where(),
+               'derived equality on a node with a span' if manual and fn.macro else ('reads span' if not ok else None))
+    ctx.floor(rid, 'program-tree equalities', n, 12)
+
+
 def check(ctx):
     from . import c04
     c04.group_rule(ctx, 'R16.5', r"^(<parse::ExprTree<'_> as std::fmt::Display>::fmt|<pattern::Pattern as std::fmt::Display>::fmt|types::TypeInner::<A>::display|<(parse|str)::\w+ as std::fmt::Display>::fmt|<types::(AliasedType|BuiltinAlias|UIntType) as std::fmt::Display>::fmt|<num::(NonZeroPow2Usize|Pow2Usize) as std::fmt::Display>::fmt)$", 'parse-tree, pattern, name and type printers: every piece and displayed component in order', 25)
@@ -347,6 +403,7 @@ def check(ctx):
     r_variants(ctx, 'R16.2')
     r_separators(ctx, 'R16.3')
     r_name_tables(ctx, 'R16.6')
+    r_tree_equality(ctx, 'R16.11')
     r_number_tokens(ctx, 'R16.7')
     c04.r_reviewed_grammar(ctx, 'R16.8', roots={'program'})
     c04.group_rule(ctx, 'R16.10', r"^(<(parse::ExprTree<'_>|&pattern::Pattern|&types::AliasedType) as miniscript::iter::TreeLike>::as_node|parse::MatchPattern::as_\w+|types::AliasedType::as_(alias|builtin))$", 'children of parse-tree, pattern and type nodes in the order the printers visit them', 4)
